@@ -426,4 +426,59 @@ theorem put_spec {hash : α → Nat} {t : Tab α} {chains} (hI : TInv hash t cha
           exact this
 
 #print axioms put_spec
+
+/-- C06: `alloc` reports "Storage is full" only when every cell `1 .. capacity-1` is occupied;
+equivalently, a workload whose live set leaves one cell free can always allocate -/
+theorem alloc_full_iff {hash : α → Nat} {t : Tab α} {chains} (hI : TInv hash t chains) :
+    (∃ e, t.alloc = .error e) ↔ ∀ j, 1 ≤ j → j < t.cap → t.occ j = true := by
+  unfold Tab.alloc
+  obtain ⟨a, b, c, d⟩ := firstFree_spec t.occ (t.lastIndex + 1 - t.minFree) t.minFree
+  generalize firstFree t.occ (t.lastIndex + 1 - t.minFree) t.minFree = k at *
+  have hall : ∀ j, 1 ≤ j → j < k → t.occ j = true := by
+    intro j h1 h2
+    by_cases hj : j < t.minFree
+    · exact hI.below j h1 hj
+    · exact c j (by omega) h2
+  simp only
+  constructor
+  · rintro ⟨e, he⟩
+    by_cases hk : k ≥ t.cap
+    · intro j h1 h2; exact hall j h1 (by omega)
+    · rw [if_neg hk] at he; cases he
+  · intro hfull
+    have hk : k ≥ t.cap := by
+      apply Classical.byContradiction
+      intro hlt
+      have hlt' : k < t.cap := by omega
+      have hfree : t.occ k = false := by
+        by_cases h : k < t.minFree + (t.lastIndex + 1 - t.minFree)
+        · exact d h
+        · exact hI.above k (by have := hI.minFreeGe; have := hI.minFreeLe; omega)
+      have := hfull k (by have := hI.minFreeGe; omega) hlt'
+      rw [hfree] at this; cases this
+    exact ⟨.storageFull, by rw [if_pos hk]⟩
+
+#print axioms alloc_full_iff
+
+/-! ### negative witness for defect D6 -/
+
+/-- the pinned `alloc`: the high-water mark is advanced *before* the capacity check, and the
+mutation survives the panic -/
+def Tab.allocPinned (t : Tab α) : Tab α × Except TFault Nat :=
+  let i := firstFree t.occ (t.lastIndex + 1 - t.minFree) t.minFree
+  let t1 := if i > t.lastIndex then { t with lastIndex := i } else t
+  if i ≥ t.cap then (t1, .error .storageFull) else
+  ({ t1 with occ := fun j => if j = i then true else t.occ j, minFree := i + 1, realSize := t.realSize + 1 }, .ok i)
+
+/-- a full 4-cell table: cells 0..3 occupied, `last_index = 3` -/
+def fullTab : Tab Nat :=
+  { val := fun _ => 0, nx := fun _ => 0, occ := fun j => decide (j < 4), bucket := fun _ => 0,
+    nb := 1, cap := 4, minFree := 4, lastIndex := 3, realSize := 3 }
+
+/-- after the failed allocation the pinned code leaves `last_index = capacity`, which breaks
+`lastIndex < capacity` (the next `alloc` then indexes cell 4 of a 4-cell vector) -/
+example : (fullTab.allocPinned).1.lastIndex = 4 ∧ (fullTab.allocPinned).1.cap = 4 := ⟨rfl, rfl⟩
+/-- the repaired `alloc` returns no new state on failure -/
+example : fullTab.alloc = .error .storageFull := rfl
+
 end S
